@@ -94,6 +94,8 @@ def signature(rec, failed: List[str]) -> str:
     return ""
 
 
+REPLAY = ("Trace_Resolver", "Trace_Resolver.cfg", None, ("params", "peaks"))   # the stored segment list is judged as recorded
+
 def run(ctx: Ctx):
     quick = ctx.tier == "quick"
     rng = random.Random(ctx.seed * 6007 + 15)
